@@ -366,6 +366,10 @@ class StoredBinLeg(object):
         from gffutils.bins import bins
 
         lines = []
+        f0 = case["features"][0]
+        if f0["dend"] % 2:
+            # the file states gene g0 itself, on a stretch that does not cover all its exons
+            lines.append('chr1\ts\tgene\t%d\t%d\t.\t+\t.\tgene_id "g0";' % (f0["start"], f0["start"] + 1))
         for i, f in enumerate(case["features"]):
             s_, e_ = f["start"], f["start"] + f["len"]
             lines.append('chr1\ts\texon\t%d\t%d\t.\t+\t.\tgene_id "g%d"; transcript_id "t%d";' % (s_, e_, i // 2, i))
